@@ -148,4 +148,188 @@ theorem tie_atomicErrorSetShape : atomicErrorSetShape =
 theorem tie_atomicErrorLoadShape : atomicErrorLoadShape =
     ["call ae.err.Load", "if v != nil {", "return", "}", "return"] := by decide
 
+/-! ### round 4: the remaining entry points, the option plumbing, forwarded arguments -/
+
+/-- MapReduceChan = mapReduceWithPanicChan on the caller's source (no generator goroutine of the library: `Props4.chan_outcome`). -/
+theorem tie_mapReduceChanShape : mapReduceChanShape =
+    ["call mapReduceWithPanicChan", "return"] := by decide
+
+/-- Finish: empty → nil; generator sends every fn; mapper = fn() and cancel(err) iff err != nil; empty reducer; WithWorkers(len(fns)) → MapReduceVoid (`Spec.finishCfg`). -/
+theorem tie_finishShape : finishShape =
+    ["if len(fns) == 0 {", "return", "}", "func{", "range fns {", "send source", "}", "}", "func{", "call fn", "if err != nil {", "call cancel", "}", "}", "func{", "}", "call WithWorkers", "call MapReduceVoid", "return"] := by decide
+
+/-- FinishVoid: empty → return; generator sends every fn; mapper = fn(); WithWorkers(len(fns)) → ForEach (`Spec.forEachCfg`). -/
+theorem tie_finishVoidShape : finishVoidShape =
+    ["if len(fns) == 0 {", "return", "}", "func{", "range fns {", "send source", "}", "}", "func{", "call fn", "}", "call WithWorkers", "call ForEach"] := by decide
+
+/-- WithContext stores the context. -/
+theorem tie_withContextShape : withContextShape =
+    ["func{", "store opts.ctx", "}", "return"] := by decide
+
+/-- buildOptions applies EVERY option, in order (`Spec.workersOf`: the last WithWorkers wins). -/
+theorem tie_buildOptionsShape : buildOptionsShape =
+    ["range opts {", "call opt", "}", "return"] := by decide
+
+/-- newOptions only constructs. -/
+theorem tie_newOptionsShape : newOptionsShape =
+    ["call context.Background", "return"] := by decide
+
+/-- newGuardedWriter only constructs. -/
+theorem tie_newGuardedWriterShape : newGuardedWriterShape =
+    ["return"] := by decide
+
+/-- buildOptions starts from newOptions() — a fresh struct per call. -/
+theorem tie_buildOptionsInit : buildOptionsInit =
+    ["newOptions()"] := by decide
+
+/-- WithContext stores ITS argument into opts.ctx. -/
+theorem tie_withContextStores : withContextStores =
+    ["opts.ctx = ctx"] := by decide
+
+/-- newGuardedWriter forwards ctx / channel / done into the fields of the same name (Write selects on gw.ctx.Done() and gw.done, sends to gw.channel). -/
+theorem tie_newGuardedWriterFields : newGuardedWriterFields =
+    ["ctx: ctx", "channel: channel", "done: done"] := by decide
+
+/-- ForEach hands the dispatcher the options' context and worker count, its own source / panicChan / collector / done. -/
+theorem tie_forEachFields : forEachFields =
+    ["ctx: options.ctx", "mapper: func", "source: source", "panicChan: panicChan", "collector: collector", "doneChan: done", "workers: options.workers"] := by decide
+
+/-- the caller hands the dispatcher the options' context and worker count, the source, panicChan, collector and done. -/
+theorem tie_mapReduceWithPanicChanFields : mapReduceWithPanicChanFields =
+    ["ctx: options.ctx", "mapper: func", "source: source", "panicChan: panicChan", "collector: collector", "doneChan: done", "workers: options.workers"] := by decide
+
+/-- the reducer's writer guards `output` with the options' context and `done`. -/
+theorem tie_callerWriterArgs : callerWriterArgs =
+    ["options.ctx, output, done"] := by decide
+
+/-- the mappers' writer guards the collector with the same context and done channel. -/
+theorem tie_mapperWriterArgs : mapperWriterArgs =
+    ["mCtx.ctx, mCtx.collector, mCtx.doneChan"] := by decide
+
+/-- all options are forwarded to buildOptions. -/
+theorem tie_callerBuildOptionsArgs : callerBuildOptionsArgs =
+    ["opts..."] := by decide
+
+/-- all options are forwarded to buildOptions. -/
+theorem tie_forEachBuildOptionsArgs : forEachBuildOptionsArgs =
+    ["opts..."] := by decide
+
+/-- MapReduce forwards source, panicChan, mapper, reducer and ALL options. -/
+theorem tie_mapReduceForwardArgs : mapReduceForwardArgs =
+    ["source, panicChan, mapper, reducer, opts..."] := by decide
+
+/-- the generator goroutine writes its panic into the SAME panicChan the caller reads. -/
+theorem tie_mapReduceBuildSourceArgs : mapReduceBuildSourceArgs =
+    ["generate, panicChan"] := by decide
+
+/-- the generator goroutine writes its panic into the SAME panicChan the caller reads. -/
+theorem tie_forEachBuildSourceArgs : forEachBuildSourceArgs =
+    ["generate, panicChan"] := by decide
+
+/-- MapReduceChan forwards source, panicChan, mapper, reducer and ALL options. -/
+theorem tie_mapReduceChanForwardArgs : mapReduceChanForwardArgs =
+    ["source, panicChan, mapper, reducer, opts..."] := by decide
+
+/-- MapReduceVoid forwards generate, mapper, its wrapper reducer and ALL options. -/
+theorem tie_mapReduceVoidForwardArgs : mapReduceVoidForwardArgs =
+    ["generate, mapper, func, opts..."] := by decide
+
+/-- the reducer reads the collector, writes through the guarded writer, gets the once-cancel. -/
+theorem tie_reducerCallArgs : reducerCallArgs =
+    ["collector, writer, cancel"] := by decide
+
+/-- the mapper gets the item, the guarded writer and the once-cancel. -/
+theorem tie_mapperCallArgs : mapperCallArgs =
+    ["item, w, cancel"] := by decide
+
+/-- cancel drains the SOURCE, the reducer goroutine's deferred function the COLLECTOR, the panic case the OUTPUT. -/
+theorem tie_callerDrainArgs : callerDrainArgs =
+    ["source", "collector", "output"] := by decide
+
+/-- the dispatcher's deferred function drains the source. -/
+theorem tie_dispatcherDrainArgs : dispatcherDrainArgs =
+    ["mCtx.source"] := by decide
+
+/-- the mapper goroutine gets the item received from the source and the guarded writer. -/
+theorem tie_dispatcherMapperArgs : dispatcherMapperArgs =
+    ["item, writer"] := by decide
+
+/-- one wait-group unit per mapper goroutine (`stepDisp` .spawn: wg + 1). -/
+theorem tie_dispatcherWgAddArgs : dispatcherWgAddArgs =
+    ["1"] := by decide
+
+/-- the defaults: background context, defaultWorkers. -/
+theorem tie_newOptionsFields : newOptionsFields =
+    ["ctx: context.Background()", "workers: defaultWorkers"] := by decide
+
+/-- newOptions returns the address of a FRESH literal: no options struct is shared between calls. -/
+theorem tie_newOptionsReturns : newOptionsReturns =
+    ["&literal"] := by decide
+
+/-- the only package-level variables are the two sentinel errors: no state persists between calls or instances. -/
+theorem tie_packageVars : packageVars =
+    ["ErrCancelWithNil", "ErrReduceNoOutput"] := by decide
+
+/-! ### semantic ties (round 4): Go conditions / assignments translated to Lean functions by `extract/c10.go` and
+proven equal, for ALL arguments, to the functions the model and the driver use -/
+
+/-- `defaultWorkers` is the 16 of `Spec.defaultWorkersN` (a call without WithWorkers: `Spec.workersOf []`). -/
+theorem tie_defaultWorkers : defaultWorkers = (GoZero.C10.defaultWorkersN : Int) := by decide
+
+/-- `WithWorkers(w)` stores `clampWorkers w` — comparison operator, both branches and the constant, for every w. -/
+theorem tie_withWorkers (w : Int) : withWorkers w = (GoZero.C10.clampWorkers w : Int) := by
+  have hm : GoZero.Extracted.C10.minWorkers = 1 := rfl
+  unfold withWorkers GoZero.C10.clampWorkers GoZero.C10.minWorkersN
+  rw [hm]
+  by_cases h : w < 1 <;> simp [h] <;> omega
+
+/-- the dispatcher goes on iff `failed = 0` (`stepDisp` .loop), and a recovered mapper panic adds exactly 1 (`.recovered`). -/
+theorem tie_dispatcherLoopCond (f : Nat) : dispatcherLoopCond f = decide (f = 0) := by
+  unfold dispatcherLoopCond
+  cases f <;> simp <;> omega
+
+theorem tie_dispatcherLoop_is_model (c : GoZero.C10.Cfg) (s : GoZero.C10.St) (h : s.dpc = .loop) :
+    GoZero.C10.stepDisp c s = some { s with dpc := if dispatcherLoopCond s.failed then .sel else .wait } := by
+  unfold GoZero.C10.stepDisp
+  rw [h, tie_dispatcherLoopCond]
+  by_cases h0 : s.failed = 0 <;> simp [h0]
+
+theorem tie_failedDelta : failedDelta = 1 := by decide
+
+/-- `AtomicError.Set` / `Load` are `Spec.aeSet` / `Spec.aeLoad` for every content and argument. -/
+theorem tie_atomicErrorSet (cur err : Option Nat) : atomicErrorSet cur err = GoZero.C10.aeSet cur err := rfl
+theorem tie_atomicErrorLoad (cur : Option Nat) : atomicErrorLoad cur = GoZero.C10.aeLoad cur := rfl
+
+/-- `cancel(err)` records err, or ErrCancelWithNil for nil (`Spec.cancelRecords`; model: `retErr := some (cancelErr e)`,
+`Props4.cancel_records_an_error`). -/
+theorem tie_cancelRecords (err : Option Nat) : cancelRecords err = GoZero.C10.cancelRecords err := by
+  cases err <;> rfl
+
+/-- the caller's output branch: recorded error first, then the value, else ErrReduceNoOutput (`Spec.callerOutput`;
+model: `Props4.callerOutput_is_model`).  The order of the three tests is part of the equality. -/
+theorem tie_callerOutput (e : Option Nat) (ok : Bool) (v : Nat) :
+    callerOutput e ok v = GoZero.C10.callerOutput e ok v := by
+  cases e <;> cases ok <;> rfl
+
+/-- the caller's context case cancels with and returns DeadlineExceeded (`stepCaller` .cancelEnter / .cdrain). -/
+theorem tie_callerCtxCase : callerCtxCase =
+    (some (GoZero.C10.encErr .deadline), some (GoZero.C10.encErr .deadline)) := by decide
+
+/-- MapReduceVoid maps ErrReduceNoOutput (and only it) to nil (`Spec.voidReturn`, driver `showRes`). -/
+theorem tie_voidReturn (err : Option Nat) : voidReturn err = GoZero.C10.voidReturn err := by
+  cases err <;> rfl
+
+/-- Finish / FinishVoid: return at once iff there is no function; pass WithWorkers(len(fns)) (`Spec.finishCfg`,
+`Spec.forEachCfg`); Finish's mapper cancels with the function's error iff it is not nil (`Spec.fnScript`). -/
+theorem tie_finishEmptyGuard (n : Nat) : finishEmptyGuard n = decide (n = 0) := by
+  unfold finishEmptyGuard; cases n <;> simp <;> omega
+theorem tie_finishVoidEmptyGuard (n : Nat) : finishVoidEmptyGuard n = decide (n = 0) := by
+  unfold finishVoidEmptyGuard; cases n <;> simp <;> omega
+theorem tie_finishWorkers (n : Nat) : withWorkers (finishWorkersArg n) = ((GoZero.C10.finishCfg (List.replicate n .ok)).workers : Int) := by
+  simp [finishWorkersArg, tie_withWorkers, GoZero.C10.finishCfg]
+theorem tie_finishVoidWorkers (n : Nat) : withWorkers (finishVoidWorkersArg n) = (GoZero.C10.clampWorkers n : Int) := by
+  simp [finishVoidWorkersArg, tie_withWorkers]
+theorem tie_finishMapperCancel (err : Option Nat) : finishMapperCancel err = err.map some := by
+  cases err <;> rfl
+
 end GoZero.C10.Tie
